@@ -6,6 +6,7 @@ import (
 	"fmt"
 	gonet "net"
 	"os"
+	"strings"
 	"sync"
 	"time"
 
@@ -56,23 +57,25 @@ type parked struct {
 
 // streamCtl controls one SyncChain invocation.
 type streamCtl struct {
-	id         int
-	addr       string
-	from       uint64
-	ctx        context.Context
-	cancel     context.CancelFunc
-	parkCh     chan *parked // stream goroutine -> harness: "I am parked here"
-	cur        *parked
-	done       chan error
-	ended      bool
-	endErr     error
-	sent       []uint64 // rounds handed to Send (recorded at the gate)
-	sentOK     []bool
-	sentSig    [][]byte
-	headAtOpen uint64
-	registered bool
-	mu         sync.Mutex
-	free       bool // when set, gates let everything through (used for free-running phases)
+	id             int
+	addr           string
+	from           uint64
+	ctx            context.Context
+	cancel         context.CancelFunc
+	parkCh         chan *parked // stream goroutine -> harness: "I am parked here"
+	more           []*parked    // goroutines of this stream currently parked (SyncChain goroutine and/or callback worker)
+	done           chan error
+	ended          bool
+	endErr         error
+	sent           []uint64 // rounds handed to Send (recorded at the gate)
+	sentOK         []bool
+	sentSig        [][]byte
+	headAtOpen     uint64
+	startRead      bool // the initial Last() of SyncChain was let through
+	ambiguousStart bool
+	registered     bool
+	mu             sync.Mutex
+	free           bool // when set, gates let everything through (used for free-running phases)
 }
 
 func (s *streamCtl) park(where string, round uint64) error {
@@ -131,10 +134,25 @@ func (g *gatedStore) Cursor(ctx context.Context, fn func(context.Context, chain.
 
 func (g *gatedStore) AddCallback(id string, fn beacon.CallbackFunc) {
 	_ = g.s.park("register", 0)
-	g.CallbackStore.AddCallback(id, fn)
+	// every invocation of the stream's live callback parks first, so the order between queued callbacks and the
+	// hand-over that follows the registration is owned by the harness as well
+	g.CallbackStore.AddCallback(id, func(b *common.Beacon, closed bool) {
+		if !closed && b != nil {
+			_ = g.s.park("callback", b.Round)
+		}
+		fn(b, closed)
+	})
 	g.s.mu.Lock()
 	g.s.registered = true
 	g.s.mu.Unlock()
+}
+
+// Last is gated too: SyncChain reads the head once at the start and once for the hand-over after registering its callback.
+func (g *gatedStore) Last(ctx context.Context) (*common.Beacon, error) {
+	if err := g.s.park("last", 0); err != nil {
+		return nil, err
+	}
+	return g.CallbackStore.Last(ctx)
 }
 
 type gatedCursor struct {
@@ -216,14 +234,27 @@ func (r *rig) open(addr string, from uint64) *streamCtl {
 	return s
 }
 
-// await waits until the stream is parked at a gate, has ended, or is idle in its live phase (nothing to do).
-// Returns a short state string.
+// collect drains what the stream's goroutines have announced so far (never blocks).
+func (r *rig) collect(s *streamCtl) {
+	for {
+		select {
+		case p := <-s.parkCh:
+			s.more = append(s.more, p)
+		case err := <-s.done:
+			s.ended, s.endErr = true, err
+			return
+		default:
+			return
+		}
+	}
+}
+
+// await waits until at least one goroutine of the stream is parked at a gate, the stream has ended, or it is idle in its live
+// phase (nothing to do). Returns a short state string. A stream has two goroutines that can park independently: the
+// SyncChain goroutine and the callback worker.
 func (r *rig) await(s *streamCtl) string {
 	if s.ended {
 		return "ended"
-	}
-	if s.cur != nil {
-		return "parked:" + s.cur.where
 	}
 	idle := 25 * time.Millisecond
 	s.mu.Lock()
@@ -232,36 +263,77 @@ func (r *rig) await(s *streamCtl) string {
 	if !reg {
 		idle = 2 * time.Second // before registration the goroutine must reach a gate or end
 	}
-	select {
-	case p := <-s.parkCh:
-		s.cur = p
-		return "parked:" + p.where
-	case err := <-s.done:
-		s.ended, s.endErr = true, err
-		return "ended"
-	case <-time.After(idle):
-		return "idle"
+	deadline := time.Now().Add(idle)
+	for {
+		r.collect(s)
+		if s.ended {
+			return "ended"
+		}
+		if len(s.more) > 0 {
+			// give a second goroutine that is about to park a moment to announce itself
+			time.Sleep(300 * time.Microsecond)
+			r.collect(s)
+			return r.state(s)
+		}
+		if time.Now().After(deadline) {
+			return "idle"
+		}
+		time.Sleep(100 * time.Microsecond)
 	}
 }
 
-// step lets a parked stream through its gate (optionally making a Send fail) and waits for the next state.
-func (r *rig) step(s *streamCtl, sendErr error) string {
+func (r *rig) state(s *streamCtl) string {
 	if s.ended {
 		return "ended"
 	}
-	if s.cur == nil {
-		if st := r.await(s); s.cur == nil {
+	if len(s.more) == 0 {
+		return "idle"
+	}
+	var w []string
+	for _, p := range s.more {
+		w = append(w, p.where)
+	}
+	return "parked:" + strings.Join(w, "+")
+}
+
+// step releases the parked goroutine `which` (modulo the number parked; optionally making a Send fail) and waits for the next state.
+func (r *rig) step(s *streamCtl, which int, sendErr error) string {
+	if s.ended {
+		return "ended"
+	}
+	if len(s.more) == 0 {
+		if st := r.await(s); len(s.more) == 0 {
 			return st
 		}
 	}
-	p := s.cur
-	s.cur = nil
+	idx := which % len(s.more)
+	p := s.more[idx]
+	s.more = append(s.more[:idx], s.more[idx+1:]...)
+	if p.where == "last" && !s.startRead {
+		// the stream takes its view of the head now, not when it was opened
+		s.startRead = true
+		r.pollPut()
+		s.headAtOpen = r.head
+		if r.putBusy != nil {
+			s.ambiguousStart = true
+		}
+	}
 	if p.where == "send" {
 		p.resp <- sendErr
 	} else {
 		p.resp <- nil
 	}
 	return r.await(s)
+}
+
+// parkedAt returns the index of a goroutine parked at the given gate, or -1.
+func (s *streamCtl) parkedAt(where string) int {
+	for i, p := range s.more {
+		if p.where == where {
+			return i
+		}
+	}
+	return -1
 }
 
 // put appends round head+1. With bolt a write can wait for an open read transaction (mmap growth), so the Put runs
